@@ -21,10 +21,26 @@ func verifC02_frame() {
 	n := vChoose("n", vParam("maxN", 12)+1)
 	p := vBytes("p", n)
 	pcopy := append([]byte{}, p...)
+	// the caller's buffer is never modified: not when the call has returned, not while it is in flight (observed from
+	// the transport at every Write: the same slice may be being written on another connection), not when the transport
+	// fails in the middle of the frame
+	t.probe = func() int {
+		vAssert(vEqBytes(p, pcopy), "C01.caller-buffer.intact-while-writing")
+		return 0
+	}
+	failAt := vChoose("failAt", 1+vParam("fail", 0))
+	t.writeErrAt = failAt
 	k, err := c.writeFrame(vBG, fin, flate, op, p)
 	vReach("C02.frame.written")
-	vAssert(vAnd(err == nil, k == n), "C02.frame.result")
 	vAssert(vEqBytes(p, pcopy), "C02.frame.caller-buffer")
+	if failAt != 0 {
+		if err != nil {
+			vReach("C02.frame.transport-failed")
+		}
+		c.CloseNow()
+		return
+	}
+	vAssert(vAnd(err == nil, k == n), "C02.frame.result")
 	if !fin {
 		// a non-final frame may stay in the write buffer; push it out to look at it
 		c.bw.Flush()
@@ -210,7 +226,11 @@ func verifC01_flate_e2e() {
 			doc = doc[:4] // below the threshold: goes out uncompressed between compressed messages
 		}
 		typ := MessageType(1 + i%2)
-		if vChoose("api", 2) == 0 {
+		api := vParam("api", -1) // -1: both ways of writing; 0: Write only (keeps three-message runs small)
+		if api < 0 {
+			api = vChoose("api", 2)
+		}
+		if api == 0 {
 			vAssert(snd.Write(vBG, typ, doc) == nil, "C01.flate.write-noerr")
 		} else {
 			w, err := snd.Writer(vBG, typ)
